@@ -81,12 +81,22 @@ func Main() {
 	journal := fs.Bool("journal", false, "internal")
 	hashfile := fs.String("hashfile", "", "internal")
 	deadline := fs.Duration("deadline", 0, "internal")
+	onlyset := fs.String("onlyset", "", "internal: comma separated case indices")
 	fs.Parse(os.Args[2:])
 	if *tier != "quick" && *tier != "thorough" {
 		*tier = "quick"
 	}
 	if *worker {
-		os.Exit(runWorker(ch, workerOpts{tier: *tier, shard: *shard, nshards: *nshards, only: *only, start: *start,
+		var set map[int64]bool
+		if *onlyset != "" {
+			set = map[int64]bool{}
+			for _, x := range strings.Split(*onlyset, ",") {
+				if v, err := strconv.ParseInt(x, 10, 64); err == nil {
+					set[v] = true
+				}
+			}
+		}
+		os.Exit(runWorker(ch, workerOpts{onlySet: set,tier: *tier, shard: *shard, nshards: *nshards, only: *only, start: *start,
 			journal: *journal, hashFile: *hashfile, deadline: *deadline}))
 	}
 	root, _ := os.Getwd()
@@ -451,34 +461,65 @@ func (p *Parent) run() int {
 	}
 	sort.Strings(keys)
 
-	// believe a failure only after it reproduced 5/5 in fresh processes
+	// believe a failure only after it reproduced 5/5 in fresh processes: five fresh workers each re-run
+	// the first failing case of every key (fatal keys are re-run one process per case)
 	confirmed := map[string]Failure{}
-	var cmu sync.Mutex
-	sem := make(chan struct{}, 16)
-	var wg sync.WaitGroup
+	okCount := map[string]int{}
+	var idxs []string
 	for _, k := range keys {
+		if !strings.HasSuffix(k, "|fatal") {
+			idxs = append(idxs, strconv.FormatInt(byKey[k][0].Index, 10))
+		}
+	}
+	var cmu sync.Mutex
+	var wg sync.WaitGroup
+	for rep := 0; rep < 5; rep++ {
 		wg.Add(1)
-		sem <- struct{}{}
-		go func(k string) {
+		go func() {
 			defer wg.Done()
-			defer func() { <-sem }()
-			f := byKey[k][0]
-			ok := 0
-			for rep := 0; rep < 5; rep++ {
-				if p.reproduces(f) {
-					ok++
+			seen := map[string]bool{}
+			for lo := 0; lo < len(idxs); lo += 2000 {
+				hi := lo + 2000
+				if hi > len(idxs) {
+					hi = len(idxs)
+				}
+				res := p.spawn([]string{p.Check.ID, "--worker", "--tier", p.Tier, "--onlyset", strings.Join(idxs[lo:hi], ",")})
+				for _, g := range res.failures {
+					seen[g.Key] = true
 				}
 			}
 			cmu.Lock()
-			if ok == 5 {
-				confirmed[k] = f
-			} else {
-				p.harness = append(p.harness, fmt.Sprintf("key %q (case #%d) reproduced %d/5 times", k, f.Index, ok))
+			for k := range seen {
+				okCount[k]++
 			}
 			cmu.Unlock()
-		}(k)
+		}()
+	}
+	for _, k := range keys {
+		if strings.HasSuffix(k, "|fatal") {
+			wg.Add(1)
+			go func(k string) {
+				defer wg.Done()
+				n := 0
+				for rep := 0; rep < 5; rep++ {
+					if p.reproduces(byKey[k][0]) {
+						n++
+					}
+				}
+				cmu.Lock()
+				okCount[k] = n
+				cmu.Unlock()
+			}(k)
+		}
 	}
 	wg.Wait()
+	for _, k := range keys {
+		if okCount[k] == 5 {
+			confirmed[k] = byKey[k][0]
+		} else {
+			p.harness = append(p.harness, fmt.Sprintf("key %q (case #%d) reproduced %d/5 times", k, byKey[k][0].Index, okCount[k]))
+		}
+	}
 	for _, f := range p.preFails {
 		byKey[f.Key] = append(byKey[f.Key], f)
 		if _, ok := confirmed[f.Key]; !ok {
